@@ -7,6 +7,7 @@ import (
 	"fmt"
 	"math"
 	"strings"
+	"time"
 
 	"github.com/orda-io/orda/client/pkg/errors"
 	"github.com/orda-io/orda/client/pkg/model"
@@ -31,6 +32,18 @@ type namedValue struct {
 
 // c14Null: values that are JSON null on the wire: not values; the API must refuse them (error, no panic).
 var c14Null = map[string]bool{"nil-slice": true, "nil-map": true}
+
+// c14NotJSON: values that JSON cannot carry at all (or not unchanged): the API may refuse them with an error; if it
+// accepts them, every replica must end up with the same value as the origin.
+var c14NotJSON = map[string]bool{"f-nan": true, "f-inf": true, "map-boolkey": true, "s-invalid-utf8": true, "chan": true}
+
+type embedInner struct {
+	X int `json:"x"`
+}
+type embedOuter struct {
+	embedInner
+	Y string `json:"y"`
+}
 
 type tagged struct {
 	A int    `json:"a"`
@@ -78,6 +91,10 @@ func c14Values(deep bool) []namedValue {
 		{"map-intkey-12", intKeyed(12)}, {"map-uint8key-slices", map[uint8][]string{3: {"a", "b"}, 1: {"c"}, 2: {"d", "e"}, 9: {"f"}, 7: {"g"}, 5: {"h"}, 4: {"i"}, 8: {"j"}}},
 		{"map-int64key-nested", map[int64]map[string]int{-1: {"a": 1}, 5: {"b": 2}, 3: {"c": 3}, 10: {"d": 4}, 7: {"e": 5}, 2: {"f": 6}, 8: {"g": 7}, 6: {"h": 8}}},
 		{"map-string-12-nested", strKeyedNested(12)},
+		// Go values whose JSON form is not what walking them by reflection gives: bytes (base64 text), a time (RFC 3339
+		// text), pre-encoded JSON, an embedded struct (its fields are promoted)
+		{"bytes", []byte("abc")}, {"time", time.Unix(0, 0).UTC()}, {"raw-json", json.RawMessage(`{"x":1}`)}, {"struct-embedded", embedOuter{embedInner{1}, "y"}},
+		{"f-nan", math.NaN()}, {"f-inf", math.Inf(1)}, {"map-boolkey", map[bool]int{true: 1}}, {"s-invalid-utf8", "a\xffb"},
 	}
 	if deep {
 		vs = append(vs,
@@ -312,6 +329,7 @@ func c14Run(kind string, nv *namedValue) (v *pt.Violation, digest string, produc
 	w.Sync(1)
 	w.Sync(0)
 	before := len(w.log)
+	pendingBefore := len(w.Pending(0))
 	var apiErr error
 	var perr interface{}
 	func() {
@@ -416,6 +434,12 @@ func c14Run(kind string, nv *namedValue) (v *pt.Violation, digest string, produc
 		if len(w.Pending(0)) == 0 {
 			return nil, "empty-batch-queues-nothing", 0
 		}
+	}
+	if nv != nil && c14NotJSON[nv.name] && apiErr != nil {
+		if len(w.Pending(0)) != pendingBefore {
+			return viol(sig("refused-value-queued-operations"), "%s refused %s (%T) but queued operations", kind, vname, val), "", 0
+		}
+		return nil, "refused-non-json-value", 0
 	}
 	if apiErr != nil {
 		return viol(sig("api-refuses-json-value"), "%s with JSON-representable value %s (%T) returned %v", kind, vname, val, apiErr), "", 0
